@@ -327,6 +327,46 @@ func (in *Interp) intrinsic(fn *ssa.Function, args []Value, site *ssa.Call) (Val
 	case "time.Now":
 		in.stub("time.Now (symbolic non-decreasing instant)")
 		return in.symbolicNow(fn), true
+	// ----- pion/srtp: cipher and HMAC are not modelled; only the LENGTH logic is
+	// (auth tag 10 bytes for AES128_CM_HMAC_SHA1_80, SRTCP index 4 bytes, MKI as
+	// configured); the produced bytes are unconstrained.
+	case "github.com/pion/srtp/v3.CreateContext":
+		in.stub("pion/srtp: CreateContext/EncryptRTP/EncryptRTCP modelled by their output length (payload + 10 [+4 SRTCP index] + len(MKI)), contents unconstrained")
+		rt := fn.Signature.Results().At(0).Type()
+		slot := new(Value)
+		*slot = in.zero(rt.(*types.Pointer).Elem())
+		cp := Pointer{P: slot}
+		if opts, ok := args[3].(SliceV); ok && opts.O != nil {
+			n := in.concretize(opts.Len, "srtp opts")
+			off := in.concretize(opts.Off, "srtp opts off")
+			for k := uint64(0); k < n; k++ {
+				if cl, ok := opts.O.E[off+k].(*Closure); ok && cl != nil {
+					in.call(cl.Fn, []Value{cp}, cl.Env)
+				}
+			}
+		}
+		return TupleV{cp, IfaceV{}}, true
+	case "(*github.com/pion/srtp/v3.Context).EncryptRTP", "(*github.com/pion/srtp/v3.Context).EncryptRTCP":
+		cp := args[0].(Pointer)
+		sv := (*cp.P).(*StructV)
+		st := under(fn.Signature.Recv().Type().(*types.Pointer).Elem()).(*types.Struct)
+		mkiLen := ts.Const(64, 0)
+		for i := 0; i < st.NumFields(); i++ {
+			if st.Field(i).Name() == "sendMKI" {
+				mkiLen = sv.F[i].(SliceV).Len
+			}
+		}
+		plain := args[2].(SliceV)
+		over := uint64(10)
+		if strings.HasSuffix(full, "EncryptRTCP") {
+			over = 14
+		}
+		ln := ts.Add(ts.Add(plain.Len, ts.Const(64, over)), mkiLen)
+		in.objSeq++
+		o := &Obj{id: in.objSeq, elemT: types.Typ[types.Uint8], lenOnly: true, phys: 1 << 20}
+		return TupleV{SliceV{o, ts.Const(64, 0), ln, ln}, IfaceV{}}, true
+	case "(*github.com/pion/srtp/v3.Context).SetROC":
+		return nil, true
 	case "time.Sleep":
 		return nil, true
 	case "time.NewTimer", "time.NewTicker", "time.AfterFunc":
